@@ -415,17 +415,88 @@ fn typed_local_cut_by_range(case: &Case) -> bool {
     hit
 }
 
+/// C09 through the command line: `--range-start` / `--range-end` given alone, together and in reverse order, for a file
+/// argument and for stdin; the result must be the library's for that range (deterministic tier, seed independent)
+fn c09_cli(rep: &mut Reporter, stats: &mut Stats, tier: Tier, _findings: &[Finding]) {
+    use crate::cli::{messy_program, run_cli, CliCase};
+    let n = if tier == Tier::Thorough { 60 } else { 12 };
+    let mut cases: Vec<(CliCase, String, (Option<usize>, Option<usize>), bool)> = Vec::new();
+    for k in 0..n {
+        let src = format!("{}{}", messy_program(k), messy_program(k + 1));
+        let len = src.len();
+        let cuts = [len / 4, len / 2, (3 * len) / 4];
+        for (i, &a) in cuts.iter().enumerate() {
+            let b = cuts[(i + 1) % 3].max(a + 1).min(len);
+            let forms: [(Option<usize>, Option<usize>); 4] = [(Some(a), None), (None, Some(b)), (Some(a), Some(b)), (Some(b), Some(a))];
+            for range in forms {
+                for stdin in [false, true] {
+                    let mut case = CliCase::default();
+                    case.files.insert(".editorconfig".into(), b"root = true\n".to_vec());
+                    let mut argv: Vec<String> = Vec::new();
+                    if let Some(s) = range.0 {
+                        argv.extend(["--range-start".to_string(), s.to_string()]);
+                    }
+                    if let Some(e) = range.1 {
+                        argv.extend(["--range-end".to_string(), e.to_string()]);
+                    }
+                    if stdin {
+                        case.stdin = Some(src.clone().into_bytes());
+                        argv.push("-".into());
+                    } else {
+                        case.files.insert("r.lua".into(), src.clone().into_bytes());
+                        argv.push("r.lua".into());
+                    }
+                    case.argv = argv;
+                    cases.push((case, src.clone(), range, stdin));
+                }
+            }
+        }
+    }
+    let results = crate::engine::par_map(&cases, |_, (case, _, _, _)| run_cli(case));
+    for ((case, src, range, stdin), run) in cases.iter().zip(results.into_iter()) {
+        let run = match run {
+            Ok(r) => r,
+            Err(e) => {
+                stats.notes.push(format!("infrastructure: {e}"));
+                continue;
+            }
+        };
+        stats.count("E3-range-flags");
+        let want = crate::cli::lib_format_full(src, stylua_lib::Config::default(), *range, false);
+        let got: Vec<u8> = if *stdin { run.stdout.clone() } else { run.after.get("r.lua").map(|f| f.bytes.clone()).unwrap_or_default() };
+        let ok = match &want {
+            Some(w) => got == w.as_bytes() && run.code == Some(0),
+            None => true,
+        };
+        if ok {
+            if want.as_deref() != Some(src.as_str()) {
+                stats.nontrivial.insert(case.hash64());
+            }
+            stats.label(match range {
+                (Some(_), None) => "cli-range:start-only",
+                (None, Some(_)) => "cli-range:end-only",
+                (Some(a), Some(b)) if a > b => "cli-range:reversed",
+                _ => "cli-range:both",
+            });
+        } else {
+            let detail = format!("the command line run with range {:?} ({}) does not give the library's result for that range (exit {:?})", range, if *stdin { "stdin" } else { "file" }, run.code);
+            rep.violation(crate::clirun::replay_value("C09", case, &detail, "E3-range-flags", Some(&run)), "E3");
+        }
+    }
+    crate::cli::cleanup_sandboxes();
+}
+
 pub static C09: E1Prop = E1Prop {
     id: "C09",
     oracle: |c, o, _| oracle::c09(c, o),
-    rule: "T1: generated programs (a third of them with `-- stylua: ignore` directives and regions) x ranges derived from the statement spans of the trusted parse (exactly one statement at any depth, a run of statements, mid-token, nudged by 0-4 bytes, open-ended on either side, empty / inverted, whole file, random offsets). Oracle: statements are classified inside / outside by the documented rule (a statement ending exactly one byte past the end bound is left unclaimed: README and implementation disagree there); (1) the text before the first and after the last affected statement is unchanged, (2) every outside statement keeps its source text piecewise around affected descendants, located at the same semantic-token position, (3) every outermost inside statement has the same text as in a whole-file run (aligned through the token sequence T), (4) if no statement is inside, the text up to the last token is unchanged. Non-trivial: at least one statement inside and one outside, the inside one compared against the whole-file run, and the output differs from the input.",
+    rule: "E3: the binary run with --range-start / --range-end alone, together and reversed on a file and on stdin must give the library's result for that range (288 runs; thorough 1440). T1: generated programs (a third of them with `-- stylua: ignore` directives and regions) x ranges derived from the statement spans of the trusted parse (exactly one statement at any depth, a run of statements, mid-token, nudged by 0-4 bytes, open-ended on either side, empty / inverted, whole file, random offsets). Oracle: statements are classified inside / outside by the documented rule (a statement ending exactly one byte past the end bound is left unclaimed: README and implementation disagree there); (1) the text before the first and after the last affected statement is unchanged, (2) every outside statement keeps its source text piecewise around affected descendants, located at the same semantic-token position, (3) every outermost inside statement has the same text as in a whole-file run (aligned through the token sequence T), (4) if no statement is inside, the text up to the last token is unchanged. Non-trivial: at least one statement inside and one outside, the inside one compared against the whole-file run, and the output differs from the input.",
     gen_case: gen_c09,
     quick_cases: 200_000,
     thorough_cases: 2_000_000,
     use_t0: false,
     tape_len: 600,
     assumptions: &["a statement carrying `-- stylua: ignore` (or lying in an ignore region) is left as written by whole-file formatting, so it is expected to be left as written under a range too, whether the range covers it or lies inside it", "the EOF trivia is only claimed unchanged when the text after the last affected statement contains a further token"],
-    extra: None,
+    extra: Some(c09_cli),
     exclude: Some(|c| if typed_local_cut_by_range(c) { Some("KF-C09-node-end-position") } else { None }),
     raw_oracle: None,
     t2_cases: (0, 0),
